@@ -2,20 +2,26 @@
 C14 — item selection fails only with ADM errors, and rejects what it cannot resolve.
 
 Theorems about the model `Earverif.Validate.selectItems` (a transliteration of
-`select_rendering_items` with the pack allocator abstracted to an oracle, see Model/Validate.lean);
+`select_rendering_items` with C07's model of the pack allocator, see Model/Validate.lean);
 the model is tied to /repo by harness/c14.py on every run.
 
 `select_no_internal_partial` is PARTIAL only because these are outside the model: message formatting, attrs
 type validators (and with them cross-class references), `RecursionError` (graph walks use fuel = number of
 elements; the loop validations run first), rtime/duration and the HOA/absoluteDistance parameters that generated
-documents leave unset.  Inside the model since round 2: the Matrix branch (`_validate_matrix_types`,
-`matrix.type_of`, `input_pack_format`, `get_wrapped_packs`/`wrap_matrix_pack`,
-`MatrixAllocationPack.output_channel_allocation`), `_validate_avs_references` / `_get_alternativeValueSet`, and
-the proof of `MultitreeSound` (`multitree_sound`), which is no longer a hypothesis.
+documents leave unset.  Inside the model: all of `validate_structure` incl. the Matrix branch and
+`_validate_avs_references`, the allocator's packs (`wrap_matrix_pack`), `select_pack_mapping` with the pack
+allocator itself (C07's model `Earverif.PackAlloc`, called on the problem built from the document — no oracle),
+`raise_error` diagnostics, Regular/Matrix `output_channel_allocation`, `_get_rendering_items`.
 Structural hypotheses (always true of parsed documents, like dangling references being impossible):
 `wellScoped` and `avsOwned` (an alternativeValueSet element is the child of one audioObject).
+
+`resolved_iff_unique_valid_partial` states the second sentence of the property with C07's `accept_iff_unique`:
+rendering only if exactly one valid assignment exists, Conflicting / Ambiguous `AdmFormatRefError` otherwise.
+PARTIAL: C07's well-formedness `WF` of the built problem is derived from validation (`allocProblem_wf`) except
+"no allocation pack without channels", which stays a hypothesis (`noEmptyPacks`: the specification read literally
+admits unboundedly many / spurious allocations using an empty pack, which the code never allocates).
 -/
-import Earverif.Proofs.C14Matrix
+import Earverif.Proofs.C14Alloc
 namespace Earverif.Validate
 open Earverif.AdmV
 
@@ -29,11 +35,10 @@ theorem multitreeSound_holds (d : Doc) : MultitreeSound d := multitree_sound d
 /-- After `validate_structure` succeeded every later unpacking / dereference / assert / `type_of` is safe: item
 selection never ends in a non-ADM exception — on every well-scoped document graph, Matrix packs included, for
 every programme / complementary-object selection and every outcome of the allocator. -/
-theorem select_no_internal_partial (d : Doc) (prog : Option Nat) (sel : List Nat) (oracle : Oracle)
+theorem select_no_internal_partial (d : Doc) (prog : Option Nat) (sel : List Nat)
     (hw : d.wellScoped = true) (hown : d.avsOwned = true)
-    (hprog : ∀ p, prog = some p → p < d.programmes.length)
-    (horacle : ∀ pats, patterns d = .ok pats → OracleScoped pats oracle) :
-    ∀ k, selectItems d prog sel oracle ≠ .error (.internal k) := by
+    (hprog : ∀ p, prog = some p → p < d.programmes.length) :
+    ∀ k, selectItems d prog sel ≠ .error (.internal k) := by
   intro k hk
   unfold selectItems at hk
   split at hk
@@ -52,8 +57,8 @@ theorem select_no_internal_partial (d : Doc) (prog : Option Nat) (sel : List Nat
         · rename_i e he; injection hk with hk; subst hk
           exact selectStates_noInt hprog k he
         · rename_i states hstates
-          exact sumE_noInt (fun i st hst => processState_noInt hw hs (patterns_ok hs hpats) (horacle pats hpats)
-            (multitree_sound d hs.multitree) i st
+          exact sumE_noInt (fun _ st hst => processState_noInt hw hs (patterns_ok hs hpats)
+            (multitree_sound d hs.multitree) st
             (avsSelected_noInt hs hown (selectStates_ok hstates st (List.mem_filter.mp hst).1))) 0 k hk
 
 /-- The allocator's packs can always be built after validation: `matrix.type_of`, `[encode_pack] = ...` and
@@ -75,70 +80,81 @@ theorem avs_assert_total (d : Doc) (prog : Option Nat) (states : List State)
     ∀ st ∈ states, ∀ k, avsSelected d st ≠ .error (.internal k) :=
   fun st h => avsSelected_noInt (validateStructure_ok hv) hown (selectStates_ok hst st h)
 
-/-- No allocation (0 solutions): `select_pack_mapping` never yields items, and what it raises is not a
-non-ADM exception — the diagnostics in `raise_error` are total on the validated tracks. -/
-theorem conflicting_is_error (d : Doc) (pats : List Pattern) (oracle : Oracle) (i : Nat) (st : State)
-    (hw : d.wellScoped = true) (hs : validateStructure d = .ok ()) (ho : oracle i = some []) :
-    (∀ m, processState d pats oracle i st ≠ .ok m) ∧ ∀ k, processState d pats oracle i st ≠ .error (.internal k) := by
-  refine ⟨processState_conflicting_never_items ho, ?_⟩
-  have hso := validateStructure_ok hs
-  have hlt := selectedOf_tracks_lt hw st
-  have hok := processState_tracksOk hw hso st
-  intro k hk
-  unfold processState at hk
-  rcases hsel : selectedOf d st with ⟨packs, tracks, n⟩
-  rw [hsel] at hk hlt hok
-  simp only [ho] at hk hlt hok
-  have hrefs : ∀ t ∈ tracks, TrackRefsOk d t := fun t ht => trackRefsOk_of_valid hw hso (hlt t ht)
-  split at hk
-  · rename_i e he; injection hk with hk; subst hk
-    exact forE_noInt (fun t ht => validateSelectedTrack_noInt (hrefs t ht)) k he
-  · rename_i hv
-    split at hk
-    · rename_i e he; injection hk with hk; subst hk
-      exact mapE_noInt (fun t ht => channelForTrack_noInt (hrefs t ht)) k he
-    · exact raiseError_noInt (hok hv) k hk
+/-- hypothesis of `resolved_iff_unique_valid_partial`: every allocation pack has a channel -/
+def noEmptyPacks (pats : List Pattern) : Prop := ∀ pat ∈ pats, pat.channels ≠ []
 
-/-- Ambiguous allocation (≥ 2 solutions): never resolved to items, never a non-ADM exception. -/
-theorem ambiguous_is_error (d : Doc) (pats : List Pattern) (oracle : Oracle) (i : Nat) (st : State)
-    (s1 s2 : List Nat) (rest : List (List Nat))
-    (hw : d.wellScoped = true) (hs : validateStructure d = .ok ()) (ho : oracle i = some (s1 :: s2 :: rest)) :
-    (∀ m, processState d pats oracle i st ≠ .ok m) ∧ ∀ k, processState d pats oracle i st ≠ .error (.internal k) := by
-  refine ⟨processState_ambiguous_never_items ho, ?_⟩
-  have hso := validateStructure_ok hs
-  have hlt := selectedOf_tracks_lt hw st
-  have hok := processState_tracksOk hw hso st
-  intro k hk
-  unfold processState at hk
-  rcases hsel : selectedOf d st with ⟨packs, tracks, n⟩
-  rw [hsel] at hk hlt hok
-  simp only [ho] at hk hlt hok
-  have hrefs : ∀ t ∈ tracks, TrackRefsOk d t := fun t ht => trackRefsOk_of_valid hw hso (hlt t ht)
-  split at hk
-  · rename_i e he; injection hk with hk; subst hk
-    exact forE_noInt (fun t ht => validateSelectedTrack_noInt (hrefs t ht)) k he
-  · rename_i hv
-    split at hk
-    · rename_i e he; injection hk with hk; subst hk
-      exact mapE_noInt (fun t ht => channelForTrack_noInt (hrefs t ht)) k he
-    · exact raiseError_noInt (hok hv) k hk
+/-- "Inconsistent or ambiguous format references are always rejected rather than resolved arbitrarily", as a
+theorem about the document: for a state of a validated document whose selected tracks passed
+`validate_selected_audioTrackUID`, with `prob` the `allocate_packs` problem built from the document and `Valid`
+C07's reading of the `allocate_packs` docstring,
+* no valid assignment            ⇒ the "Conflicting format references" ADM error;
+* two inequivalent valid ones    ⇒ the "Ambiguous format references" ADM error;
+* exactly one (up to `≈`)        ⇔ the allocator accepts one and the outcome is its rendering;
+* items are returned             ⇒ exactly one valid assignment exists. -/
+theorem resolved_iff_unique_valid_partial (d : Doc) (pats : List Pattern) (st : State) (cfs : List (Option Nat))
+    (hw : d.wellScoped = true) (hv : validateStructure d = .ok ()) (hp : patterns d = .ok pats)
+    (hne : noEmptyPacks pats)
+    (htv : forE (selectedOf d st).2.1 (validateSelectedTrack d) = .ok ())
+    (hcf : mapE (selectedOf d st).2.1 (channelForTrack d) = .ok cfs) :
+    ((¬ ∃ sol, PackAlloc.Valid (stateProblem d pats st cfs) sol) →
+        processState d pats st = .error (.adm .conflicting)) ∧
+    ((∃ s1 s2, PackAlloc.Valid (stateProblem d pats st cfs) s1 ∧ PackAlloc.Valid (stateProblem d pats st cfs) s2 ∧
+        ¬ PackAlloc.SolEquiv s1 s2) → processState d pats st = .error (.adm .ambiguous)) ∧
+    ((∃ s, PackAlloc.Valid (stateProblem d pats st cfs) s ∧
+        ∀ sol, PackAlloc.Valid (stateProblem d pats st cfs) sol → PackAlloc.SolEquiv s sol) ↔
+      ∃ s, PackAlloc.selectPackMapping (stateProblem d pats st cfs) = .accepted s ∧
+        processState d pats st = renderSolution d pats st s) ∧
+    (∀ n, processState d pats st = .ok n →
+      ∃ s, PackAlloc.Valid (stateProblem d pats st cfs) s ∧
+        ∀ sol, PackAlloc.Valid (stateProblem d pats st cfs) sol → PackAlloc.SolEquiv s sol) := by
+  have hs := validateStructure_ok hv
+  have hwf : PackAlloc.WF (stateProblem d pats st cfs) := allocProblem_wf hs (patterns_ok hs hp) hne _ _ _ _
+  obtain ⟨hacc, hconf, hamb⟩ := PackAlloc.accept_iff_unique _ hwf
+  have hdec := processState_decided (pats := pats) hw hs htv hcf
+  refine ⟨?_, ?_, ?_, ?_⟩
+  · intro h
+    rw [hdec, hconf.mpr h]
+  · intro h
+    rw [hdec, hamb.mpr h]
+  · rw [← hacc]
+    constructor
+    · rintro ⟨s, hsel⟩
+      exact ⟨s, hsel, by rw [hdec, hsel]⟩
+    · rintro ⟨s, hsel, _⟩
+      exact ⟨s, hsel⟩
+  · intro n hn
+    rw [← hacc]
+    rw [hdec] at hn
+    cases hsel : PackAlloc.selectPackMapping (stateProblem d pats st cfs) with
+    | conflicting => rw [hsel] at hn; cases hn
+    | ambiguous => rw [hsel] at hn; cases hn
+    | accepted s => exact ⟨s, rfl⟩
 
-/-- whenever the raise-error path is reached the result is the ADM error asked for, provided the
-diagnostics terminate normally (which `diagnostics_total` shows) -/
+/-- No allocation satisfies the `allocate_packs` requirements ⇒ the "Conflicting" ADM error, never items. -/
+theorem conflicting_is_error (d : Doc) (pats : List Pattern) (st : State) (cfs : List (Option Nat))
+    (hw : d.wellScoped = true) (hv : validateStructure d = .ok ()) (hp : patterns d = .ok pats)
+    (hne : noEmptyPacks pats)
+    (htv : forE (selectedOf d st).2.1 (validateSelectedTrack d) = .ok ())
+    (hcf : mapE (selectedOf d st).2.1 (channelForTrack d) = .ok cfs)
+    (h : ¬ ∃ sol, PackAlloc.Valid (stateProblem d pats st cfs) sol) :
+    processState d pats st = .error (.adm .conflicting) :=
+  (resolved_iff_unique_valid_partial d pats st cfs hw hv hp hne htv hcf).1 h
+
+/-- Two inequivalent allocations satisfy the requirements ⇒ the "Ambiguous" ADM error, never items. -/
+theorem ambiguous_is_error (d : Doc) (pats : List Pattern) (st : State) (cfs : List (Option Nat))
+    (hw : d.wellScoped = true) (hv : validateStructure d = .ok ()) (hp : patterns d = .ok pats)
+    (hne : noEmptyPacks pats)
+    (htv : forE (selectedOf d st).2.1 (validateSelectedTrack d) = .ok ())
+    (hcf : mapE (selectedOf d st).2.1 (channelForTrack d) = .ok cfs)
+    (h : ∃ s1 s2, PackAlloc.Valid (stateProblem d pats st cfs) s1 ∧ PackAlloc.Valid (stateProblem d pats st cfs) s2 ∧
+      ¬ PackAlloc.SolEquiv s1 s2) :
+    processState d pats st = .error (.adm .ambiguous) :=
+  (resolved_iff_unique_valid_partial d pats st cfs hw hv hp hne htv hcf).2.1 h
+
+/-- `raise_error` on validated tracks raises exactly the ADM error asked for (the diagnostics return normally) -/
 theorem raiseError_adm (d : Doc) (packs : Option (List Nat)) (tracks : List Nat) (n : Nat) (a : AdmKind)
-    (h : ∀ t ∈ tracks, TrackOk d t) :
-    raiseError d packs tracks n a = .error (.adm a) ∨
-      ∃ a', possibleReferenceErrors d packs tracks n = .error (.adm a') ∨
-        possibleReferenceErrors d packs tracks n = .error .noOracle := by
-  unfold raiseError
-  cases hp : possibleReferenceErrors d packs tracks n with
-  | ok l => left; rfl
-  | error e =>
-    right
-    cases e with
-    | adm a' => exact ⟨a', Or.inl rfl⟩
-    | internal k => exact absurd hp (possibleReferenceErrors_noInt h k)
-    | noOracle => exact ⟨a, Or.inr rfl⟩
+    (h : ∀ t ∈ tracks, TrackOk d t) : raiseError d packs tracks n a = .error (.adm a) :=
+  raiseError_eq a h
 
 /-- `possible_reference_errors` yields no non-ADM exception for either referencing style, on tracks that
 passed `validate_selected_audioTrackUID` in a validated document (`TrackOk`; for a v1-style track the
@@ -175,39 +191,50 @@ def docV2 : Doc := {
   channels := [{ type := .objects, blocks := [objBlock] }]
   trackUIDs := [{ trackIndex := some 1, pack := some 0, channel := some 0 }] }
 
-def oracleOne : Oracle := fun _ => some [[0]]
-def oracleNone : Oracle := fun _ => some []
-def oracleTwo : Oracle := fun _ => some [[0], [0]]
 
 example : docV1.wellScoped = true ∧ uniquePaths docV1 = true := by decide
-example : selectItems docV1 none [] oracleOne = .ok 1 := by decide
-example : selectItems docV2 none [] oracleOne = .ok 1 := by decide
-example : selectItems docV1 (some 0) [] oracleOne = .ok 1 := by decide
+example : selectItems docV1 none [] = .ok 1 := by decide
+example : selectItems docV2 none [] = .ok 1 := by decide
+example : selectItems docV1 (some 0) [] = .ok 1 := by decide
 -- conflicting / ambiguous references, both styles: the ADM error, via total diagnostics
-example : selectItems docV1 none [] oracleNone = .error (.adm .conflicting) := by decide
-example : selectItems docV2 none [] oracleNone = .error (.adm .conflicting) := by decide
-example : selectItems docV1 none [] oracleTwo = .error (.adm .ambiguous) := by decide
-example : selectItems docV2 none [] oracleTwo = .error (.adm .ambiguous) := by decide
+/-- the object references no pack: no allocation exists -/
+example : selectItems { docV1 with objects := [{ packs := [], tracks := [some 0] }] } none []
+    = .error (.adm .conflicting) := by decide
+example : selectItems { docV2 with objects := [{ packs := [], tracks := [some 0] }] } none []
+    = .error (.adm .conflicting) := by decide
+
+/-- CHNA-only documents (no programme, no object) with a nested pack `outer ⊃ inner ∋ channel 0` and a track
+referencing `inner`: the track fits `inner` on its own and `outer` — two allocations -/
+def docAmbV2 : Doc := {
+  v2Allowed := true
+  packs := [{ type := .directSpeakers, channels := [0] }, { type := .directSpeakers, packs := [0] }]
+  channels := [{ type := .directSpeakers, blocks := [{}] }]
+  trackUIDs := [{ trackIndex := some 1, pack := some 0, channel := some 0 }] }
+def docAmbV1 : Doc := { docAmbV2 with
+  streams := [{ channel := some 0 }], trackFormats := [{ stream := some 0 }]
+  trackUIDs := [{ trackIndex := some 1, pack := some 0, trackFormat := some 0 }] }
+example : selectItems docAmbV1 none [] = .error (.adm .ambiguous) := by decide
+example : selectItems docAmbV2 none [] = .error (.adm .ambiguous) := by decide
 -- one faulty document per modelled fault class
-example : selectItems { docV1 with trackFormats := [{ stream := none }] } none [] oracleOne = .error (.adm .tfnostream) := by decide
-example : selectItems { docV1 with streams := [{}] } none [] oracleOne = .error (.adm .streamnone) := by decide
-example : selectItems { docV1 with streams := [{ channel := some 0, pack := some 0 }] } none [] oracleOne = .error (.adm .streamboth) := by decide
-example : selectItems { docV1 with streams := [{ pack := some 0 }] } none [] oracleOne = .error (.adm .streamnochannel) := by decide
-example : selectItems { docV1 with objects := [{ packs := [0], tracks := [some 0], objects := [0] }] } none [] oracleOne = .error (.adm .objloop) := by decide
-example : selectItems { docV1 with objects := [{ objects := [1], params := true }, { packs := [0], tracks := [some 0] }] } none [] oracleOne = .error (.adm .leafparam) := by decide
-example : selectItems { docV1 with channels := [{ type := .directSpeakers, blocks := [objBlock] }] } none [] oracleOne = .error (.adm .packchtype) := by decide
-example : selectItems { docV1 with packs := [{ type := .objects, channels := [0], packs := [1] }, { type := .directSpeakers }] } none [] oracleOne = .error (.adm .subpacktype) := by decide
-example : selectItems { docV1 with packs := [{ type := .objects, channels := [0], packs := [0] }] } none [] oracleOne = .error (.adm .packloop) := by decide
-example : selectItems { docV1 with packs := [{ type := .objects, channels := [0, 0] }] } none [] oracleOne = .error (.adm .diamond) := by decide
-example : selectItems { docV1 with channels := [{ type := .objects, freq := true, blocks := [objBlock] }] } none [] oracleOne = .error (.adm .objfreq) := by decide
-example : selectItems { docV1 with channels := [{ type := .objects, blocks := [{ cartMismatch := true }] }] } none [] oracleOne = .error (.adm .cartesian) := by decide
-example : selectItems { docV1 with packs := [{ type := .objects, channels := [0], input := some 0 }] } none [] oracleOne = .error (.adm .nmxinput) := by decide
-example : selectItems { docV1 with trackUIDs := [{ trackIndex := some 1, pack := some 0, trackFormat := some 0, channel := some 0 }] } none [] oracleOne = .error (.adm .v2ref) := by decide
-example : selectItems { docV2 with trackUIDs := [{ trackIndex := some 1, pack := some 0 }] } none [] oracleOne = .error (.adm .tracknone) := by decide
-example : selectItems { docV2 with trackUIDs := [{ trackIndex := some 1, pack := some 0, channel := some 0, trackFormat := some 0 }], trackFormats := [{ stream := some 0 }], streams := [{ channel := some 0 }] } none [] oracleOne = .error (.adm .trackboth) := by decide
-example : selectItems { docV2 with trackUIDs := [{ pack := some 0, channel := some 0 }] } none [] oracleOne = .error (.adm .noindex) := by decide
-example : selectItems { docV2 with trackUIDs := [{ trackIndex := some 1, channel := some 0 }] } none [] oracleOne = .error (.adm .nopack) := by decide
-example : selectItems docV2 none [0] oracleOne = .error (.adm .compnotgroup) := by decide
+example : selectItems { docV1 with trackFormats := [{ stream := none }] } none [] = .error (.adm .tfnostream) := by decide
+example : selectItems { docV1 with streams := [{}] } none [] = .error (.adm .streamnone) := by decide
+example : selectItems { docV1 with streams := [{ channel := some 0, pack := some 0 }] } none [] = .error (.adm .streamboth) := by decide
+example : selectItems { docV1 with streams := [{ pack := some 0 }] } none [] = .error (.adm .streamnochannel) := by decide
+example : selectItems { docV1 with objects := [{ packs := [0], tracks := [some 0], objects := [0] }] } none [] = .error (.adm .objloop) := by decide
+example : selectItems { docV1 with objects := [{ objects := [1], params := true }, { packs := [0], tracks := [some 0] }] } none [] = .error (.adm .leafparam) := by decide
+example : selectItems { docV1 with channels := [{ type := .directSpeakers, blocks := [objBlock] }] } none [] = .error (.adm .packchtype) := by decide
+example : selectItems { docV1 with packs := [{ type := .objects, channels := [0], packs := [1] }, { type := .directSpeakers }] } none [] = .error (.adm .subpacktype) := by decide
+example : selectItems { docV1 with packs := [{ type := .objects, channels := [0], packs := [0] }] } none [] = .error (.adm .packloop) := by decide
+example : selectItems { docV1 with packs := [{ type := .objects, channels := [0, 0] }] } none [] = .error (.adm .diamond) := by decide
+example : selectItems { docV1 with channels := [{ type := .objects, freq := true, blocks := [objBlock] }] } none [] = .error (.adm .objfreq) := by decide
+example : selectItems { docV1 with channels := [{ type := .objects, blocks := [{ cartMismatch := true }] }] } none [] = .error (.adm .cartesian) := by decide
+example : selectItems { docV1 with packs := [{ type := .objects, channels := [0], input := some 0 }] } none [] = .error (.adm .nmxinput) := by decide
+example : selectItems { docV1 with trackUIDs := [{ trackIndex := some 1, pack := some 0, trackFormat := some 0, channel := some 0 }] } none [] = .error (.adm .v2ref) := by decide
+example : selectItems { docV2 with trackUIDs := [{ trackIndex := some 1, pack := some 0 }] } none [] = .error (.adm .tracknone) := by decide
+example : selectItems { docV2 with trackUIDs := [{ trackIndex := some 1, pack := some 0, channel := some 0, trackFormat := some 0 }], trackFormats := [{ stream := some 0 }], streams := [{ channel := some 0 }] } none [] = .error (.adm .trackboth) := by decide
+example : selectItems { docV2 with trackUIDs := [{ pack := some 0, channel := some 0 }] } none [] = .error (.adm .noindex) := by decide
+example : selectItems { docV2 with trackUIDs := [{ trackIndex := some 1, channel := some 0 }] } none [] = .error (.adm .nopack) := by decide
+example : selectItems docV2 none [0] = .error (.adm .compnotgroup) := by decide
 
 /-- first-order-less HOA document: one HOA pack with one channel -/
 def docHoa : Doc := {
@@ -218,22 +245,45 @@ def docHoa : Doc := {
   channels := [{ type := .hoa, blocks := [hoaBlock 0 0] }]
   trackUIDs := [{ trackIndex := some 1, pack := some 0, channel := some 0 }] }
 
-example : selectItems docHoa none [] oracleOne = .ok 1 := by decide
-example : selectItems { docHoa with channels := [{ type := .hoa, blocks := [] }] } none [] oracleOne = .error (.adm .hoablocks) := by decide
-example : selectItems { docHoa with channels := [{ type := .hoa, blocks := [{ degree := some 0 }] }] } none [] oracleOne = .error (.adm .hoaorder) := by decide
+example : selectItems docHoa none [] = .ok 1 := by decide
+example : selectItems { docHoa with channels := [{ type := .hoa, blocks := [] }] } none [] = .error (.adm .hoablocks) := by decide
+example : selectItems { docHoa with channels := [{ type := .hoa, blocks := [{ degree := some 0 }] }] } none [] = .error (.adm .hoaorder) := by decide
 
 /-- former finding F1 (fixed in 03146b0): a HOA pack that references no channel is rejected with an ADM error
 (before the fix `get_single_param` indexed `pack_paths_channels[0]`: IndexError) -/
 theorem hoa_empty_pack_is_adm :
-    selectItems { docHoa with packs := [{ type := .hoa, channels := [] }] } none [] oracleOne
+    selectItems { docHoa with packs := [{ type := .hoa, channels := [] }] } none []
       = .error (.adm .hoaempty) := by decide
 
 /-- former finding F4 (fixed in 76cae51): a consistent Binaural document is rejected with an ADM error
 (before the fix `_get_rendering_items` raised NotImplementedError) -/
 theorem unsupported_type_is_adm :
     selectItems { docV2 with packs := [{ type := .binaural, channels := [0] }],
-                             channels := [{ type := .binaural, blocks := [objBlock] }] } none [] oracleOne
+                             channels := [{ type := .binaural, blocks := [objBlock] }] } none []
       = .error (.adm .unsupportedtype) := by decide
+
+/-! ### the allocation problem -/
+
+/-- non-vacuity of `noEmptyPacks` (and with it of `resolved_iff_unique_valid_partial`) on the example documents -/
+example : (match patterns docV1 with
+    | .ok pats => decide (∀ pat ∈ pats, pat.channels ≠ [])
+    | .error _ => false) = true := by decide
+example : (match patterns docAmbV2 with
+    | .ok pats => decide (∀ pat ∈ pats, pat.channels ≠ [])
+    | .error _ => false) = true := by decide
+
+/-- an object that references a pack without channels and no tracks -/
+def docEmptyPack : Doc := { docV2 with
+  objects := [{ packs := [0], tracks := [] }]
+  packs := [{ type := .objects, channels := [] }]
+  channels := [], trackUIDs := [] }
+
+/-- why `noEmptyPacks` is a hypothesis: the code rejects this object ("Conflicting": an empty pack is never
+allocated) although, read literally, the `allocate_packs` requirements are met by allocating the empty pack once -/
+theorem empty_pack_rejected_though_spec_valid :
+    selectItems docEmptyPack none [] = .error (.adm .conflicting) ∧
+    PackAlloc.Valid (allocProblem docEmptyPack [⟨0, false, [], []⟩] (some [0]) [] [] 0) [⟨⟨0, 0, []⟩, []⟩] := by
+  decide
 
 /-! ### Matrix documents -/
 
@@ -257,22 +307,23 @@ def docDirect : Doc := {
 example : (patterns docDirect).map (·.length) = .ok 4 := by decide
 example : docDirect.wellScoped = true := by decide
 /-- direct use: the allocator's third pack; two DirectSpeakers items -/
-example : selectItems docDirect none [] (fun _ => some [[2]]) = .ok 2 := by decide
-example : selectItems docDirect none [] oracleNone = .error (.adm .conflicting) := by decide
+example : selectItems docDirect none [] = .ok 2 := by decide
+example : selectItems { docDirect with objects := [{ packs := [], tracks := [some 0] }] } none []
+    = .error (.adm .conflicting) := by decide
 -- matrix fault classes
 example : selectItems { docDirect with packs := [{ type := .directSpeakers, channels := [0] }, { type := .directSpeakers, channels := [1, 2] },
-    { type := .matrix, channels := [3, 4] }] } none [] oracleNone = .error (.adm .mxnoio) := by decide
+    { type := .matrix, channels := [3, 4] }] } none [] = .error (.adm .mxnoio) := by decide
 example : selectItems { docDirect with channels := [{ type := .directSpeakers, blocks := [dsBlock] }, { type := .directSpeakers, blocks := [dsBlock] },
     { type := .directSpeakers, blocks := [dsBlock] },
-    { type := .matrix, blocks := [mxBlock (some 1) [1]] }, { type := .matrix, blocks := [mxBlock (some 2) [0]] }] } none [] oracleNone
+    { type := .matrix, blocks := [mxBlock (some 1) [1]] }, { type := .matrix, blocks := [mxBlock (some 2) [0]] }] } none []
       = .error (.adm .mxinputch) := by decide
 example : selectItems { docDirect with channels := [{ type := .directSpeakers, blocks := [dsBlock] }, { type := .directSpeakers, blocks := [dsBlock] },
     { type := .directSpeakers, blocks := [dsBlock] },
-    { type := .matrix, blocks := [mxBlock none [0]] }, { type := .matrix, blocks := [mxBlock (some 2) [0]] }] } none [] oracleNone
+    { type := .matrix, blocks := [mxBlock none [0]] }, { type := .matrix, blocks := [mxBlock (some 2) [0]] }] } none []
       = .error (.adm .mxoutmissing) := by decide
 example : selectItems { docDirect with channels := [{ type := .directSpeakers, blocks := [dsBlock] }, { type := .directSpeakers, blocks := [dsBlock] },
     { type := .directSpeakers, blocks := [dsBlock] },
-    { type := .matrix, blocks := [] }, { type := .matrix, blocks := [mxBlock (some 2) [0]] }] } none [] oracleNone
+    { type := .matrix, blocks := [] }, { type := .matrix, blocks := [mxBlock (some 2) [0]] }] } none []
       = .error (.adm .mxchblocks) := by decide
 
 /-- former finding F2 (fixed in 76cae51): a matrix coefficient without inputChannelFormat is an ADM error from
@@ -281,7 +332,7 @@ theorem coefficient_without_input_is_adm :
     selectItems { docDirect with channels := [{ type := .directSpeakers, blocks := [dsBlock] }, { type := .directSpeakers, blocks := [dsBlock] },
       { type := .directSpeakers, blocks := [dsBlock] },
       { type := .matrix, blocks := [{ outCh := some 1, coeffs := [{ input := none }] }] },
-      { type := .matrix, blocks := [mxBlock (some 2) [0]] }] } none [] oracleNone
+      { type := .matrix, blocks := [mxBlock (some 2) [0]] }] } none []
       = .error (.adm .coeffnoinput) := by decide
 
 /-- former finding F3 (fixed in 592dfc9): a decode matrix pack (pack 0) declared BEFORE the Matrix pack it
@@ -290,7 +341,7 @@ references as encode pack (pack 1), which has neither input nor output reference
 theorem encode_without_refs_is_adm :
     selectItems { v2Allowed := true,
                   packs := [{ type := .matrix, output := some 2, encodePacks := [1] }, { type := .matrix },
-                            { type := .directSpeakers }] } none [] oracleNone
+                            { type := .directSpeakers }] } none []
       = .error (.adm .mxnoio) := by decide
 
 /-! ### alternativeValueSets -/
@@ -301,14 +352,14 @@ def docAvs : Doc := { docV2 with
   objects := [{ packs := [0], tracks := [some 0], params := true, avs := [7, 8] }] }
 
 example : docAvs.avsOwned = true ∧ docAvs.wellScoped = true := by decide
-example : selectItems docAvs none [] oracleOne = .ok 1 := by decide
-example : selectItems { docAvs with programmes := [{ contents := [0], avs := [9] }] } none [] oracleOne
+example : selectItems docAvs none [] = .ok 1 := by decide
+example : selectItems { docAvs with programmes := [{ contents := [0], avs := [9] }] } none []
     = .error (.adm .avsnotin) := by decide
-example : selectItems { docAvs with programmes := [{ contents := [0], avs := [7, 7] }] } none [] oracleOne
+example : selectItems { docAvs with programmes := [{ contents := [0], avs := [7, 7] }] } none []
     = .error (.adm .avsdup) := by decide
-example : selectItems { docAvs with contents := [{ objects := [0], avs := [7] }] } none [] oracleOne
+example : selectItems { docAvs with contents := [{ objects := [0], avs := [7] }] } none []
     = .error (.adm .avsboth) := by decide
-example : selectItems { docAvs with contents := [{ objects := [0], avs := [8] }] } none [] oracleOne
+example : selectItems { docAvs with contents := [{ objects := [0], avs := [8] }] } none []
     = .error (.adm .avsmulti) := by decide
 
 /-- why `avsOwned` is a hypothesis: an AVS shared by two objects (impossible in a parsed document) defeats the
@@ -319,7 +370,6 @@ theorem shared_avs_defeats_validation :
       programmes := [{ contents := [0], avs := [7, 8] }]
       contents := [{ objects := [0, 1] }]
       objects := [{ packs := [0], tracks := [some 0], params := true, avs := [7] },
-                  { packs := [0], tracks := [some 0], params := true, avs := [7, 8] }] } none []
-      (fun _ => some [[0]]) = .error (.internal .assert) := by decide
+                  { packs := [0], tracks := [some 0], params := true, avs := [7, 8] }] } none [] = .error (.internal .assert) := by decide
 
 end Earverif.Validate
